@@ -945,6 +945,7 @@ func main() {
 	c.Rule += " " + "Sources without a registry host: the image reference handed to the signature validator must be the one the revision controller installs."
 	c.Rule += " " + "A quarter of the package cases meet a pre-release build of Crossplane (own constraint truth table)."
 	c.Rule += " " + "Images whose annotated base layer blob is served with bytes that do not hash to the digest the manifest names (nothing may be established)."
+	c.Rule += " " + "validator: the real CosignValidator (built through the verif-tagged constructor, base options without the Sigstore TUF root) as one long-lived object shared by 2-4 concurrent workers, each verifying 2-3 images under 1-3 keyless (1-3 identities) or static-key authorities against a loopback registry that holds no signature: no call may succeed, and the race detector watches the validator's shared state."
 	c.Assumptions = []string{
 		"sim implements the apiserver rules of DESIGN.md 2.2",
 		"the running Crossplane version is " + runningVersion + ", injected into the production Versioner (normally set with -ldflags); constraint truth table written by hand for plain comparison, ~, ^ and x-range forms",
@@ -972,6 +973,7 @@ func main() {
 		{"share", c.N(120, 1200), rn.runShare},
 		{"sig", c.N(200, 2000), rn.runSig},
 		{"build", c.N(150, 1500), rn.runBuild},
+		{"validator", c.N(16, 200), rn.runValidator},
 	}
 	byName := map[string]func(int, string){}
 	var jobs []job
